@@ -268,11 +268,23 @@ def check_case(case):
     def key(sym):
         return "C14|%s|%s|%s" % (eng, case["op"], sym)
 
+    decoy = []
+
     def listing():
-        return sorted(os.listdir(os.path.dirname(name)))
+        return sorted(x for x in os.listdir(os.path.dirname(name))
+                      if x not in decoy)
 
     try:
         if case["op"] == "roundtrip":
+            if want_file != base and core.pick(
+                    [case["name"], case["sizes"], case["vdt"], "decoy"], 2):
+                # another, older dataset lies under exactly the bare name
+                # (the name given always means name + extension)
+                old = xr.Dataset({"other": (("q",), [7.0, 8.0, 9.0])})
+                tmpn = os.path.join(os.path.dirname(name), "decoy" + ext)
+                xyz.save_ds(old, tmpn, engine=eng)
+                os.rename(tmpn, name)
+                decoy.append(base)
             xyz.save_ds(ds, name, engine=eng)
             if listing() != [want_file]:
                 vio.append((key("file-name"), "saving %r wrote %r, expected %r"
@@ -341,9 +353,17 @@ def check_case(case):
                 # the engine is given per call, the harvesters' own default
                 # is the other one
                 other = "joblib" if eng == "h5netcdf" else "h5netcdf"
-                h = xyz.Harvester(xyz.Runner(f, var_names="out"),
-                                  data_name=name, engine=other, full_ds=ds)
-                h.save_full_ds(engine=eng)
+                if core.pick([case["name"], case["sizes"], case["vdt"],
+                              "pc"], 2):
+                    # (saved by merging the dataset in, engine per call)
+                    h = xyz.Harvester(xyz.Runner(f, var_names="out"),
+                                      data_name=name, engine=other)
+                    h.add_ds(ds, engine=eng)
+                else:
+                    h = xyz.Harvester(xyz.Runner(f, var_names="out"),
+                                      data_name=name, engine=other,
+                                      full_ds=ds)
+                    h.save_full_ds(engine=eng)
                 if listing() != [want_file]:
                     vio.append((key("file-name"), "Harvester saved %r with a "
                                 "per-call engine as %r, expected %r" % (
